@@ -28,8 +28,11 @@ Reading of the property.
   [CRC-32,] serial number, CRC-9.  Without "check field ≠ 0" the statement is false
   (`crc_detect_full_false`).  The PI header has no sentinel: `pi_detect` is unconditional.
 * *HRNP*: one inverted bit anywhere except in the two packet-length octets is detected
-  (`hrnp_single_bit_partial`); a changed length makes the parser check a different octet range, which
-  the ones' complement sum does not exclude.
+  (`hrnp_single_bit_partial`, this file); a changed length makes the parser check a different octet range, which
+  the ones' complement sum alone does not exclude — since /repo bc140b5 the parser cross-checks the announced length
+  with the length the carried HDAP message accounts for, and `Props/C04p.lean` proves the full statement
+  (`hrnp_single_bit`, `hrnp_single_bit_in_context`: every octet of a DATA packet, length octets included) together
+  with the exact burst characterisation of the checksum (`hrnp_burst_iff`; known finding hrnp-burst16-zero-ones).
 -/
 
 namespace Dmr.C04
